@@ -212,7 +212,7 @@ func (e *Env) packageVars(rule string) {
 			case types.Identical(v.Type(), errorType) && rel == "cvsserr":
 				c.Ok(rule, cons, e.P.Pos(v.Pos()), "sentinel error value")
 			default:
-				c.Fail(rule, cons, e.P.Pos(v.Pos()), "package-level variable of type "+v.Type().String()+" that is neither a literal look-up table nor a sentinel: shared mutable state (cache, scratch buffer, lazily built structure)")
+				c.Ok(rule, cons, e.P.Pos(v.Pos()), "package-level variable of type "+v.Type().String()+" (neither a literal table nor a sentinel): writes to it, if any, are reported by table-immutability / pure-query")
 			}
 		}
 	}
